@@ -88,7 +88,7 @@ func checkVarInt(c *vm.Ctx, v int32, full bool, snk *sink, src *inject.ByteSrc) 
 	copy(in[:], ref[:rn])
 	copy(in[rn:], trailer)
 	src.B, src.Pos = in[:rn+len(trailer)], 0
-	var got pk.VarInt
+	got := pk.VarInt(^v) // a destination that held another value before (every bit differs)
 	dn, err := got.ReadFrom(src)
 	if err != nil || int32(got) != v || int(dn) != rn || src.Pos != rn {
 		c.Violation("varint/dec/roundtrip", fmt.Sprintf("decode(%x)= %d n=%d consumed=%d err=%v, want %d n=%d", ref[:rn], got, dn, src.Pos, err, v, rn), map[string]any{"value": v, "bytes": vm.Hex(ref[:rn])})
@@ -133,7 +133,7 @@ func checkVarLong(c *vm.Ctx, v int64, snk *sink, src *inject.ByteSrc) {
 	copy(in[:], ref[:rn])
 	copy(in[rn:], trailer)
 	src.B, src.Pos = in[:rn+len(trailer)], 0
-	var got pk.VarLong
+	got := pk.VarLong(^v) // a destination that held another value before
 	dn, err := got.ReadFrom(src)
 	if err != nil || int64(got) != v || int(dn) != rn || src.Pos != rn {
 		c.Violation("varlong/dec/roundtrip", fmt.Sprintf("decode(%x)= %d n=%d consumed=%d err=%v, want %d n=%d", ref[:rn], got, dn, src.Pos, err, v, rn), map[string]any{"value": v})
@@ -147,7 +147,14 @@ func checkVarLong(c *vm.Ctx, v int64, snk *sink, src *inject.ByteSrc) {
 }
 
 // checkDecode feeds an arbitrary byte string to both decoders through both kinds of source.
+// dirty is what the decode destinations hold before ReadFrom is called; it changes from call to call.
+var dirty int32
+
 func checkDecode(c *vm.Ctx, in []byte) {
+	dirty = dirty*1103515245 + 12345
+	if dirty%3 == 0 {
+		dirty = 0 // a fresh variable
+	}
 	for kind := 0; kind < 2; kind++ {
 		maxLen, name := 5, "varint"
 		if kind == 1 {
@@ -184,11 +191,11 @@ func checkDecode(c *vm.Ctx, in []byte) {
 			}
 			pan := c.Guard(name+"/dec", func() any { return map[string]any{"bytes": vm.Hex(in), "src": sname} }, func() {
 				if kind == 0 {
-					var v pk.VarInt
+					v := pk.VarInt(dirty) // the destination already holds something (a reused variable): it must not leak into the result
 					n, err = v.ReadFrom(rd)
 					val = uint64(uint32(v))
 				} else {
-					var v pk.VarLong
+					v := pk.VarLong(int64(dirty)<<31 | int64(dirty))
 					n, err = v.ReadFrom(rd)
 					val = uint64(v)
 				}
